@@ -96,6 +96,16 @@ def constructed(rng):
                 for sg in (1, -1):
                     op = rng.choice(("round", "cround"))
                     out.append("%s %s %d" % (op, G.fD(sg * a, p), p - s))
+    # seams of the split at s digits for every s up to 38 (quotient at floor(T/10^s) +- 2, remainder 0 / 1 / all nines / half)
+    for sh in range(1, 39):
+        for c in G.split_values(rng, sh, 3):
+            pmin = max(0, sh - 38)
+            p = rng.randrange(0, 19)
+            n = p - sh
+            if n < -128:
+                continue
+            for sgn in (1, -1):
+                out.append("%s %s %d" % (rng.choice(("round", "cround")), G.fD(sgn * c, p), n))
     # negative n, result near +-2^127
     for k in range(1, 39):
         top = M // P10[k]
